@@ -25,6 +25,7 @@ type Result struct {
 	Overflow bool        // exact integer result left int64 somewhere: case must be discarded
 	Unspec   bool        // evaluation reached a construct whose meaning nothing defines: case must be discarded
 	Steps    int
+	MissingField int // reads of a field the object does not have (they yield null)
 }
 
 type evalErr struct{ msg string }
@@ -75,6 +76,7 @@ type Evaluator struct {
 	funcs    map[string]*Func
 	overflow bool
 	steps    int
+	missingField int
 	depth    int
 	// StepLimit guards the reference against generator bugs; exceeding it marks the case as skipped.
 	StepLimit int
@@ -162,9 +164,10 @@ func convertQuery(v, typ string) (interface{}, error) {
 // RunRoute evaluates Routes[req.Route] on req.
 func (e *Evaluator) RunRoute(req *Request) (res Result) {
 	rt := &e.prog.Routes[req.Route]
-	e.overflow, e.steps, e.Exceeded = false, 0, false
+	e.overflow, e.steps, e.Exceeded, e.missingField = false, 0, false, 0
 	defer func() {
 		res.Overflow = e.overflow
+		res.MissingField = e.missingField
 		res.Steps = e.steps
 		if strings.Contains(res.Msg, "reference:") || e.Exceeded {
 			res.Unspec = true
@@ -720,6 +723,9 @@ func (e *Evaluator) expr(n *Node, env *scope) (interface{}, error) {
 		m, ok := o.(map[string]interface{})
 		if !ok {
 			return nil, errf("cannot access field on non-object")
+		}
+		if _, has := m[n.S]; !has {
+			e.missingField++
 		}
 		return m[n.S], nil // missing field reads as null
 	case "index":
